@@ -47,6 +47,48 @@ Fixpoint strip_raw (n : dnode) : dnode :=
   | DNode k p ks => if is_raw k then raw_warning else DNode k p (map strip_raw ks)
   end.
 
+(* ---- vocabulary for the loop as the source writes it (Gen/RawSrc.v) ----
+   a node of the tree is named by its path from the root *)
+Fixpoint replace_nth_d (i : nat) (x : dnode) (l : list dnode) : list dnode :=
+  match l, i with
+  | [], _ => []
+  | _ :: r, O => x :: r
+  | y :: r, S j => y :: replace_nth_d j x r
+  end.
+
+(* document.traverse(nodes.raw): the raw nodes in document order, all of them (also below another
+   raw node), listed before the loop body runs *)
+Fixpoint traverse_raw (n : dnode) : list (list nat) :=
+  match n with
+  | DText _ => []
+  | DNode k _ ks =>
+      (if is_raw k then [[]] else [])
+      ++ (fix kids (i : nat) (l : list dnode) : list (list nat) :=
+            match l with
+            | [] => []
+            | c :: r => map (cons i) (traverse_raw c) ++ kids (S i) r
+            end) O ks
+  end.
+
+Fixpoint replace_at (p : list nat) (w : dnode) (n : dnode) {struct p} : dnode :=
+  match p with
+  | [] => w
+  | i :: p' =>
+      match n with
+      | DText _ => n
+      | DNode k pl ks =>
+          match nth_error ks i with
+          | Some c => DNode k pl (replace_nth_d i (replace_at p' w c) ks)
+          | None => n
+          end
+      end
+  end.
+
+(* node.parent.replace(node, new): when the node's parent has already been taken out of the
+   document (a raw node below a replaced raw node) the document does not change *)
+Definition parent_replace (doc : dnode) (node : list nat) (new : dnode) : dnode :=
+  replace_at node new doc.
+
 (* what Parser.parse does to the document after rendering; the root is a nodes.document *)
 Definition post_process (raw_enabled : bool) (doc : dnode) : dnode * nat :=
   if raw_enabled then (doc, O) else (strip_raw doc, count_raw doc).
@@ -111,6 +153,33 @@ Definition include_run_prefix (st : settings) (name arg : str)
     | None => (RError 4 path, t1 ++ [FsRead path])           (* file not found *)
     | Some text => (RNodes text, t1 ++ [FsRead path])
     end.
+
+(* ---- the head of run() up to the nested_render_text call ---- *)
+Record incl_opts := { io_literal : bool; io_code : bool }.
+
+Inductive head_out :=
+| HNested (text : str)             (* goes on to nested_render_text(file_content, ...) *)
+| HLiteral (text : str)            (* :literal: -> return [literal_block] *)
+| HCode (text : str)               (* :code:    -> return codeblock.run() *)
+| HError (level : N) (msg : str).
+
+(* slice: start-line/end-line/start-after/end-before (None: "text not found", DirectiveError 4);
+   circular: include_key in include_log *)
+Definition include_run_head (st : settings) (opts : incl_opts) (name arg : str)
+    (resolve resolve_std : str -> str) (fs : str -> option str)
+    (slice : str -> option str) (circular : str -> bool) : head_out * list fs_event :=
+  match include_run_prefix st name arg resolve resolve_std fs with
+  | (RError level msg, tr) => (HError level msg, tr)
+  | (RNodes text, tr) =>
+      match slice text with
+      | None => (HError 4 name, tr)
+      | Some text' =>
+          if io_literal opts then (HLiteral text', tr)
+          else if io_code opts then (HCode text', tr)
+          else if circular (include_path arg resolve resolve_std) then (HError 2 name, tr)
+          else (HNested text', tr)
+      end
+  end.
 
 (* run_directive around it: a DirectiveError becomes a system_message holding the directive's
    content; the registries are untouched *)
